@@ -98,3 +98,73 @@ pub fn ticks() -> [u64; 4] {
         TICKS_IS_SUBSET.load(Ordering::Relaxed),
     ]
 }
+
+/// Typed queries of `value/subtypes.rs` (the module is private, so the traits are not nameable from
+/// outside the crate): `query` is `arr`, `one`, `obj` (with `key`) or `tup` (with `index`), `ty` is the
+/// type argument (`Number`, `ONumber` for `Optional<Number>`, ...). `None` = no such impl.
+pub fn subtype_query(query: &str, ty: &str, v: &Value, key: &str, index: usize) -> Option<bool> {
+    use crate::value::subtypes::{
+        Array, Boolean, IsArrayOf, IsObjectOf, IsOneOf, IsTupleOf, Null, Number, Object, OneOf, Optional, String as Str, Tuple,
+    };
+    Some(match (query, ty) {
+        ("arr", "Null") => IsArrayOf::<Null>::is_array_of(v),
+        ("arr", "Number") => IsArrayOf::<Number>::is_array_of(v),
+        ("arr", "ONumber") => IsArrayOf::<Optional<Number>>::is_array_of(v),
+        ("arr", "Tuple") => IsArrayOf::<Tuple>::is_array_of(v),
+        ("arr", "OTuple") => IsArrayOf::<Optional<Tuple>>::is_array_of(v),
+        ("arr", "String") => IsArrayOf::<Str>::is_array_of(v),
+        ("arr", "OString") => IsArrayOf::<Optional<Str>>::is_array_of(v),
+        ("arr", "Boolean") => IsArrayOf::<Boolean>::is_array_of(v),
+        ("arr", "OBoolean") => IsArrayOf::<Optional<Boolean>>::is_array_of(v),
+        ("arr", "Array") => IsArrayOf::<Array>::is_array_of(v),
+        ("arr", "OArray") => IsArrayOf::<Optional<Array>>::is_array_of(v),
+        ("arr", "Object") => IsArrayOf::<Object>::is_array_of(v),
+        ("arr", "OObject") => IsArrayOf::<Optional<Object>>::is_array_of(v),
+        ("arr", "OneOf") => IsArrayOf::<OneOf>::is_array_of(v),
+        ("arr", "OOneOf") => IsArrayOf::<Optional<OneOf>>::is_array_of(v),
+        ("one", "Null") => IsOneOf::<Null>::is_one_of(v),
+        ("one", "Number") => IsOneOf::<Number>::is_one_of(v),
+        ("one", "String") => IsOneOf::<Str>::is_one_of(v),
+        ("one", "Boolean") => IsOneOf::<Boolean>::is_one_of(v),
+        ("one", "Array") => IsOneOf::<Array>::is_one_of(v),
+        ("one", "Object") => IsOneOf::<Object>::is_one_of(v),
+        ("one", "OneOf") => IsOneOf::<OneOf>::is_one_of(v),
+        ("one", "Tuple") => IsOneOf::<Tuple>::is_one_of(v),
+        ("one", "OTuple") => IsOneOf::<Optional<Tuple>>::is_one_of(v),
+        ("one", "ONumber") => IsOneOf::<Optional<Number>>::is_one_of(v),
+        ("one", "OString") => IsOneOf::<Optional<Str>>::is_one_of(v),
+        ("one", "OBoolean") => IsOneOf::<Optional<Boolean>>::is_one_of(v),
+        ("one", "OArray") => IsOneOf::<Optional<Array>>::is_one_of(v),
+        ("one", "OObject") => IsOneOf::<Optional<Object>>::is_one_of(v),
+        ("one", "OOneOf") => IsOneOf::<Optional<OneOf>>::is_one_of(v),
+        ("obj", "Null") => IsObjectOf::<Null>::is_object_of(v, key),
+        ("obj", "Number") => IsObjectOf::<Number>::is_object_of(v, key),
+        ("obj", "String") => IsObjectOf::<Str>::is_object_of(v, key),
+        ("obj", "Boolean") => IsObjectOf::<Boolean>::is_object_of(v, key),
+        ("obj", "Array") => IsObjectOf::<Array>::is_object_of(v, key),
+        ("obj", "Tuple") => IsObjectOf::<Tuple>::is_object_of(v, key),
+        ("obj", "Object") => IsObjectOf::<Object>::is_object_of(v, key),
+        ("obj", "OneOf") => IsObjectOf::<OneOf>::is_object_of(v, key),
+        ("obj", "ONumber") => IsObjectOf::<Optional<Number>>::is_object_of(v, key),
+        ("obj", "OString") => IsObjectOf::<Optional<Str>>::is_object_of(v, key),
+        ("obj", "OBoolean") => IsObjectOf::<Optional<Boolean>>::is_object_of(v, key),
+        ("obj", "OArray") => IsObjectOf::<Optional<Array>>::is_object_of(v, key),
+        ("obj", "OTuple") => IsObjectOf::<Optional<Tuple>>::is_object_of(v, key),
+        ("obj", "OObject") => IsObjectOf::<Optional<Object>>::is_object_of(v, key),
+        ("obj", "OOneOf") => IsObjectOf::<Optional<OneOf>>::is_object_of(v, key),
+        ("tup", "Null") => IsTupleOf::<Null>::is_tuple_of(v, index),
+        ("tup", "Number") => IsTupleOf::<Number>::is_tuple_of(v, index),
+        ("tup", "ONumber") => IsTupleOf::<Optional<Number>>::is_tuple_of(v, index),
+        ("tup", "String") => IsTupleOf::<Str>::is_tuple_of(v, index),
+        ("tup", "OString") => IsTupleOf::<Optional<Str>>::is_tuple_of(v, index),
+        ("tup", "Boolean") => IsTupleOf::<Boolean>::is_tuple_of(v, index),
+        ("tup", "OBoolean") => IsTupleOf::<Optional<Boolean>>::is_tuple_of(v, index),
+        ("tup", "Array") => IsTupleOf::<Array>::is_tuple_of(v, index),
+        ("tup", "OArray") => IsTupleOf::<Optional<Array>>::is_tuple_of(v, index),
+        ("tup", "Object") => IsTupleOf::<Object>::is_tuple_of(v, index),
+        ("tup", "OObject") => IsTupleOf::<Optional<Object>>::is_tuple_of(v, index),
+        ("tup", "OneOf") => IsTupleOf::<OneOf>::is_tuple_of(v, index),
+        ("tup", "OOneOf") => IsTupleOf::<Optional<OneOf>>::is_tuple_of(v, index),
+        _ => return None,
+    })
+}
